@@ -488,6 +488,31 @@ impl Node {
          id in ({}) ",
             q,);
 
+        //a node whose deletion is logged is not imported again at the deleted version or at an older one
+        let deletion_query = format!(
+            "SELECT id, max(mdate) FROM _node_deletion_log WHERE id in ({}) GROUP BY id",
+            q,
+        );
+        let mut deleted: Vec<Uid> = Vec::new();
+        {
+            let mut deletion_stmt = conn.prepare(&deletion_query)?;
+            let mut deletion_rows = deletion_stmt.query(params_from_iter(ids.iter()))?;
+            while let Some(row) = deletion_rows.next()? {
+                let id: Uid = row.get(0)?;
+                let deleted_mdate: i64 = row.get(1)?;
+                let identifier = NodeIdentifier {
+                    id,
+                    mdate: deleted_mdate,
+                    signature: Vec::new(),
+                };
+                if let Some(new) = node_ids.get(&identifier) {
+                    if new.mdate <= deleted_mdate {
+                        deleted.push(id);
+                    }
+                }
+            }
+        }
+
         let mut stmt = conn.prepare(&query)?;
         let mut rows = stmt.query(params_from_iter(ids.iter()))?;
 
@@ -551,6 +576,15 @@ impl Node {
                     result.push(node_to_insert);
                 }
             }
+        }
+
+        for id in deleted {
+            node_ids.remove(&NodeIdentifier {
+                id,
+                mdate: 0,
+                signature: Vec::new(),
+            });
+            result.retain(|node_to_insert: &NodeToInsert| node_to_insert.id != id);
         }
 
         for node_id in node_ids.drain() {
